@@ -21,6 +21,7 @@ RULE = (
     "Non-trivial = a successful call that changes at least one link, or a refusal. Enumerated distinct by construction; histories hashed."
     ' Also: legal calls on classes whose repr() raises; every parent assignment on forests N <= 4 with a hook that evicts a sibling (closed-form expectation); children from generators with side effects on the same node.'
     ' Also: look-alike non-nodes (node class instead of instance, stub with node-like attributes).'
+    ' Rounds 11-14: constructor run again on attached nodes, hooks reading constructor keywords, refused effectful generators, text/bytes as children value.'
 )
 ASSUMPTIONS = [
     "oracle = closed-form post-state and refusal predicate written from the statement (vf/mut.py spec), compared on the whole universe",
